@@ -30,11 +30,19 @@ inductive Bound
   | other (s : String)                -- anything else
   deriving DecidableEq, Repr
 
+/-- the type a sum `k + E` is computed in (E a big-endian uint32 / uint16 read from the input) -/
+inductive NumT
+  | u32     -- uint32: Go's arithmetic wraps modulo 2^32
+  | wide    -- int / int64 / uint64 (64 bits on the platforms the harness runs on)
+  deriving DecidableEq, Repr
+
 /-- what dominates a site (established by a test on every path to it and not invalidated by an assignment) -/
 inductive GFact
   | lenGe (v : String) (n : Nat)      -- n ≤ len(v):   `len(v) < n` left early, `v == ""` left early, strings.Count(v, "x") != 0 …
   | lenGeLen (v p : String)           -- len(p) ≤ len(v)
   | idxIn (i v : String)              -- 0 ≤ i < len(v): i := strings.IndexByte(v, c) and `i < 0` left early
+  | varLeLen (i v : String)           -- i ≤ len(v):   `len(v) < i` left early (conversions that keep the value stripped)
+  | defPlus (i : String) (k : Nat) (t : NumT)  -- i := k + E computed in type t, 0 ≤ E < 2^32
   deriving DecidableEq, Repr
 
 inductive OpKind
@@ -65,11 +73,24 @@ def minLen (fs : List GFact) (x : String) : Nat :=
     | .lenGe v n => if v = x then max m n else m
     | _ => m) 0
 
+/-- `0 ≤ i` follows from the way i was computed (a sum of naturals in an unsigned or a non-wrapping type) -/
+def nonnegVar (fs : List GFact) (i : String) : Bool :=
+  fs.any (fun f => match f with
+    | .defPlus j k _ => j = i && k < 4294967296
+    | _ => false)
+
+/-- `a ≤ i` follows from `i := k + E` computed in a type that does NOT wrap, with a ≤ k.  In uint32 nothing follows:
+    4 + 0xFFFFFFFC = 0 -/
+def constLeVar (fs : List GFact) (a : Nat) (i : String) : Bool :=
+  fs.any (fun f => match f with
+    | .defPlus j k .wide => j = i && a ≤ k && k < 4294967296
+    | _ => false)
+
 /-- `0 ≤ b ≤ len(x)` follows from the facts -/
 def leLen (fs : List GFact) (x : String) : Bound → Bool
   | .const n => n ≤ minLen fs x
   | .lenOf p => p = x || fs.contains (.lenGeLen x p)
-  | .var i => fs.contains (.idxIn i x)
+  | .var i => fs.contains (.idxIn i x) || (fs.contains (.varLeLen i x) && nonnegVar fs i)
   | .varPlus i k => k ≤ 1 && fs.contains (.idxIn i x)
   | .lenMinus v k => v = x && k ≤ minLen fs x
   | .other _ => false
@@ -86,6 +107,7 @@ def leBound (fs : List GFact) (x : String) : Bound → Bound → Bool
   | .const a, .const b => a ≤ b
   | .const a, .lenMinus v k => v = x && a + k ≤ minLen fs x
   | .const a, .lenOf v => v = x && a ≤ minLen fs x
+  | .const a, .var i => constLeVar fs a i
   | _, _ => false
 
 def Shape.ok (fs : List GFact) (x : String) : Shape → Bool
@@ -116,10 +138,18 @@ def Bound.eval (ρ : Env) : Bound → Option Int
   | .lenMinus v k => some ((ρ.len v : Int) - k)
   | .other _ => none
 
+/-- Go's arithmetic in the type: uint32 wraps modulo 2^32, the 64-bit types modulo 2^64 (never reached by k + E with
+    k, E < 2^32) -/
+def NumT.wrap : NumT → Nat → Nat
+  | .u32, x => x % 4294967296
+  | .wide, x => x % 18446744073709551616
+
 def GFact.holds (ρ : Env) : GFact → Prop
   | .lenGe v n => n ≤ ρ.len v
   | .lenGeLen v p => ρ.len p ≤ ρ.len v
   | .idxIn i v => 0 ≤ ρ.int i ∧ ρ.int i < ρ.len v
+  | .varLeLen i v => ρ.int i ≤ ρ.len v
+  | .defPlus i k t => ∃ e : Nat, e < 4294967296 ∧ ρ.int i = (t.wrap (k + e) : Nat)
 
 /-- Go's run-time check (runtime.panicIndex / panicSlice*): the expression does not panic -/
 def Shape.safe (ρ : Env) (x : String) : Shape → Prop
